@@ -913,3 +913,7 @@ mod tests {
         Ok(())
     }
 }
+
+#[cfg(kani)]
+#[path = "/verif/harness/commands_forget.rs"]
+pub(crate) mod verif_harness;
